@@ -4,9 +4,11 @@ package c20
 //
 // A generated case is an alert definition (tenant, evaluation window / interval ⇒ N, cool-down, condition,
 // threshold, query/result shape) plus a list of steps. Every evaluating step first moves the data so that the
-// alert's query returns chosen values around the threshold, then triggers exactly one evaluation through the
-// exported scheduler entry points (create handler, update handler, AddCronJob, InitAlertingService). After each
-// evaluation the alert state, the new history row, the webhook posts received by a loopback sink and the
+// alert's query returns chosen values around the threshold, then triggers exactly one evaluation: the first run of
+// a job registered by the create handler, the update handler or InitAlertingService (after a restart of the server
+// process, or repeated in the running process), or one more run of the job that is registered at that moment —
+// which evaluates with the alert object captured at registration / load time, like the cron job in production.
+// After each evaluation the alert state, the new history row, the webhook posts received by a loopback sink and the
 // notification row are compared with the reference model derived from the property statement.
 
 import (
@@ -45,8 +47,11 @@ var condName = map[int]string{0: "above", 1: "below", 2: "equal", 3: "notequal",
 var stateDesc = map[int]string{1: "Alert Normal", 2: "Alert Pending", 3: "Alert Firing"}
 
 type alertStep struct {
-	// eval: one scheduled evaluation; edit: update handler (message change) which evaluates once;
-	// restart: new server process on the same data + start-up alert initialisation which evaluates once;
+	// eval: one more run of the cron job registered last (alert object captured at that registration);
+	// edit: update handler (message change) which re-registers the job with the alert as stored now and evaluates once;
+	// restart: new server process on the same data + start-up alert initialisation (InitAlertingService: loads the
+	// alert from the store, registers the job) which evaluates once;
+	// reinit: the same initialisation repeated in the running process (job removed, InitAlertingService);
 	// age: the harness moves last_sent_time back beyond the cool-down (no evaluation).
 	Kind string    `json:"kind"`
 	Vals []float64 `json:"vals,omitempty"` // target query-result value per group / timestamp
@@ -195,19 +200,64 @@ func genAlertCase(t *rapid.T) *alertCase {
 		}
 		return vals
 	}
-	c.Init = draw()
-	for i := 0; i < nSteps; i++ {
-		k := pct(t, "kind")
-		switch {
-		case k < 2:
-			c.Steps = append(c.Steps, alertStep{Kind: "edit", Vals: draw()})
-		case k < 6:
-			c.Steps = append(c.Steps, alertStep{Kind: "restart", Vals: draw()})
-		case k < 14 && c.Cooldown > 0:
-			c.Steps = append(c.Steps, alertStep{Kind: "age"})
-		default:
-			c.Steps = append(c.Steps, alertStep{Kind: "eval", Vals: draw()})
+	// The generator follows the state the definition gives for the values drawn (never used by the oracle), so that
+	// restarts / re-registrations are placed often while the alert is Firing or Pending.
+	var outs []bool
+	push := func(vals []float64) {
+		h := false
+		for _, v := range vals {
+			if c.Cond == condNoValue {
+				h = h || v == 0
+			} else {
+				h = h || holds(c.Cond, v, c.Threshold)
+			}
 		}
+		outs = append(outs, h)
+	}
+	predicted := func() int {
+		n := len(outs)
+		if n == 0 || !outs[n-1] {
+			return stNormal
+		}
+		if n < c.N {
+			return stPending
+		}
+		for _, b := range outs[n-c.N:] {
+			if !b {
+				return stPending
+			}
+		}
+		return stFiring
+	}
+	c.Init = draw()
+	push(c.Init)
+	for i := 0; i < nSteps; i++ {
+		pEdit, pRestart, pReinit := 2, 3, 3
+		switch predicted() {
+		case stFiring:
+			pEdit, pRestart, pReinit = 6, 9, 9
+		case stPending:
+			pEdit, pRestart, pReinit = 4, 6, 6
+		}
+		k := pct(t, "kind")
+		kind := "eval"
+		switch {
+		case k < pEdit:
+			kind = "edit"
+		case k < pEdit+pRestart:
+			kind = "restart"
+		case k < pEdit+pRestart+pReinit:
+			kind = "reinit"
+		case k < pEdit+pRestart+pReinit+8 && c.Cooldown > 0:
+			kind = "age"
+		}
+		if kind == "age" {
+			c.Steps = append(c.Steps, alertStep{Kind: kind})
+			continue
+		}
+		st := alertStep{Kind: kind, Vals: draw()}
+		push(st.Vals)
+		c.Steps = append(c.Steps, st)
 	}
 	return c
 }
@@ -234,6 +284,10 @@ type alertDriver struct {
 	exists  []bool    // the group / timestamp has at least one event / point
 	evSeq   int       // ingested events / series so far
 	message string
+	jobRuns int    // runs the alert's live cron job must have made (1 after a registration)
+	loaded  int    // alert state stored when the live job's alert object was loaded (Inactive: created in this process)
+	loadBy  string // create | edit | restart | reinit
+	sinceLd string // states after the evaluations of the live job, first letters
 
 	timedOut bool // a worker command timed out (the worker is killed then)
 	abnormal bool // the last observe() found the query answering abnormally
@@ -548,14 +602,50 @@ func (d *alertDriver) alertBody(withID bool) map[string]interface{} {
 	return b
 }
 
-func (d *alertDriver) waitRows(op string, rows int) error {
+// waitRows waits for the first run of a job that was just registered (by is create | edit | restart | reinit); the
+// job stays registered and the following "eval" steps are further runs of it. stored is the alert state in the store
+// at the moment of the registration, i.e. the State of the alert object the job captured.
+func (d *alertDriver) waitRows(op string, rows int, by string, stored int) error {
 	var er evalResult
-	if err := d.c.Call(&sut.Req{Op: op, Name: d.alertID, Ints: map[string]int64{"rows": int64(rows)}}, &er); err != nil {
+	ints := map[string]int64{"rows": int64(rows), "keep": 1}
+	if by == "reinit" {
+		ints["remove"] = 1
+	}
+	if err := d.c.Call(&sut.Req{Op: op, Name: d.alertID, Ints: ints}, &er); err != nil {
 		return d.wrap(op, err)
 	}
 	if er.TimedOut {
-		return pt.Inconclusivef("%s: the evaluation started by the handler did not write its history row within 40 s (rows=%d, want %d); log tail:\n%s",
-			op, er.Rows, rows, d.c.LogTail(1500))
+		return pt.Inconclusivef("%s: the evaluation started by the handler did not write its history row within 40 s (rows=%d, want %d, job runs %d finished %d); log tail:\n%s",
+			op, er.Rows, rows, er.Runs, er.Finished, d.c.LogTail(1500))
+	}
+	d.jobRuns, d.loaded, d.loadBy, d.sinceLd = 1, stored, by, ""
+	if by != "create" {
+		d.o.Class(fmt.Sprintf("load_%s_while_%s", by, stateName[stored]))
+	}
+	return nil
+}
+
+// runLive makes the registered job run once more (the evaluation a scheduled run performs).
+func (d *alertDriver) runLive(what string) error {
+	var rr runResult
+	if err := d.c.Call(&sut.Req{Op: "c20.run", Name: d.alertID, Ints: map[string]int64{"runs": int64(d.jobRuns)}}, &rr); err != nil {
+		return d.wrap(what, err)
+	}
+	switch {
+	case rr.Jobs != 1:
+		return fmt.Errorf("%s: %d cron jobs are registered for the alert after a %s, expected 1", what, rr.Jobs, d.loadBy)
+	case rr.TooLate:
+		return pt.Inconclusivef("%s: case ran so slowly that the job's own timer is due in %d ms", what, rr.NextMs)
+	case !rr.Started:
+		return pt.Inconclusivef("%s: the job's run count is %d/%d, expected %d (its own timer fired: case ran too slowly)", what, rr.Runs, rr.Finished, d.jobRuns)
+	case rr.TimedOut:
+		return pt.Inconclusivef("%s: the evaluation did not finish within 40 s: %+v", what, rr)
+	case rr.Runs != d.jobRuns+1 || rr.Finished != d.jobRuns+1:
+		return pt.Inconclusivef("%s: the job ran %d/%d times, expected %d (its own timer fired)", what, rr.Runs, rr.Finished, d.jobRuns+1)
+	}
+	d.jobRuns++
+	if d.jobRuns > 2 {
+		d.o.Class("job_ran_3_or_more_times_with_one_alert_object")
 	}
 	return nil
 }
@@ -679,7 +769,7 @@ func checkAlert(cs *alertCase, o *pt.Obs) (err error) {
 		return fmt.Errorf("alert list after one create: %s (%v)", r, err)
 	}
 	d.alertID = al.Alerts[0].ID
-	if err := d.waitRows("c20.waitHistory", 1); err != nil {
+	if err := d.waitRows("c20.waitHistory", 1, "create", stInactive); err != nil {
 		return err
 	}
 	if err := d.afterEvaluation(m, "create", cs.Init, obsVals, 1); err != nil {
@@ -723,12 +813,8 @@ func checkAlert(cs *alertCase, o *pt.Obs) (err error) {
 			if obsVals, err = d.observe(); err != nil {
 				return err
 			}
-			var er evalResult
-			if err := d.c.Call(&sut.Req{Op: "c20.eval", Name: d.alertID}, &er); err != nil {
-				return d.wrap(what, err)
-			}
-			if er.TimedOut || er.Runs != 1 || er.Finished != 1 {
-				return pt.Inconclusivef("%s: scheduler did not run the evaluation exactly once: %+v", what, er)
+			if err := d.runLive(what); err != nil {
+				return err
 			}
 			if err := d.afterEvaluation(m, what, st.Vals, obsVals, 1); err != nil {
 				return err
@@ -750,7 +836,7 @@ func checkAlert(cs *alertCase, o *pt.Obs) (err error) {
 				return fmt.Errorf("%s: updating the alert message failed: %s", what, r)
 			}
 			// the update handler writes a "Config Modified" history row and re-schedules ⇒ one evaluation
-			if err := d.waitRows("c20.waitHistory", m.rows+2); err != nil {
+			if err := d.waitRows("c20.waitHistory", m.rows+2, "edit", m.state); err != nil {
 				return err
 			}
 			m.editRowAge = 0
@@ -794,7 +880,21 @@ func checkAlert(cs *alertCase, o *pt.Obs) (err error) {
 			if obsVals, err = d.observe(); err != nil {
 				return err
 			}
-			if err := d.waitRows("c20.initAlerting", m.rows+1); err != nil {
+			if err := d.waitRows("c20.initAlerting", m.rows+1, "restart", m.state); err != nil {
+				return err
+			}
+			if err := d.afterEvaluation(m, what, st.Vals, obsVals, 1); err != nil {
+				return err
+			}
+		case "reinit":
+			o.Class("step_reinit")
+			if err := d.setData(st.Vals); err != nil {
+				return err
+			}
+			if obsVals, err = d.observe(); err != nil {
+				return err
+			}
+			if err := d.waitRows("c20.initAlerting", m.rows+1, "reinit", m.state); err != nil {
 				return err
 			}
 			if err := d.afterEvaluation(m, what, st.Vals, obsVals, 1); err != nil {
@@ -881,6 +981,18 @@ func (d *alertDriver) afterEvaluation(m *alertModel, what string, target, obsVal
 		return err
 	}
 	posts := d.sk.Posts(d.path)
+	// the alert has exactly one cron job, which has made exactly the runs the harness waited for: a run started by
+	// the job's own timer (case slower than the evaluation interval) is not part of the generated history
+	var ji jobInfo
+	if err := d.c.Call(&sut.Req{Op: "c20.job", Name: d.alertID}, &ji); err != nil {
+		return d.wrap("job state", err)
+	}
+	if ji.Jobs != 1 {
+		return fmt.Errorf("%s: %d cron jobs are registered for the alert after a %s, expected 1", what, ji.Jobs, d.loadBy)
+	}
+	if ji.Runs != d.jobRuns || ji.Finished != d.jobRuns {
+		return pt.Inconclusivef("%s: the job ran %d/%d times, expected %d (its own timer fired: case ran too slowly)", what, ji.Runs, ji.Finished, d.jobRuns)
+	}
 
 	inEditWindow := m.editRowAge >= 0 && m.editRowAge < m.n-1
 	// pick the outcome consistent with the observed state
@@ -993,6 +1105,21 @@ func (d *alertDriver) afterEvaluation(m *alertModel, what string, target, obsVal
 	m.posts = len(posts)
 	m.outcomes = append(m.outcomes, outcome)
 	m.state = st
+	// classes: what the live job's alert object was loaded as, and what the job has been through since
+	d.sinceLd += stateName[st][:1]
+	if d.loadBy != "create" && d.jobRuns >= 2 {
+		nq := "N1"
+		if m.n >= 2 {
+			nq = "Nge2"
+		}
+		o.Class(fmt.Sprintf("job_loaded_while_%s_ran_again_%s", stateName[d.loaded], nq))
+		if k := len(d.sinceLd); k >= 2 && d.sinceLd[k-2] == 'N' && st != stNormal {
+			// the evaluation the statement's window decides: first match after a Normal, by a job whose alert object
+			// still carries the state stored at load time
+			o.Class(fmt.Sprintf("job_loaded_while_%s_normal_then_match_%s", stateName[d.loaded], nq))
+			o.Class(fmt.Sprintf("job_loaded_by_%s_while_%s_normal_then_match", d.loadBy, stateName[d.loaded]))
+		}
+	}
 	m.rows = len(rows)
 	if m.editRowAge >= 0 {
 		m.editRowAge++
